@@ -331,21 +331,36 @@ def parse_flows(text):
 
 
 def run_taint(dirs, par=4, timeout=1500):
-    """runs build/bin/c10taint over the program directories, `par` processes at a time"""
+    """runs build/bin/c10taint over the program directories, `par` processes at a time; each process writes its canonical
+    output to its own file (a pipe would block the later processes until the earlier ones have been drained)"""
     exe = os.path.join(vlib.BIN, "c10taint")
     chunks = [dirs[i::par] for i in range(par) if dirs[i::par]]
-    procs = [subprocess.Popen([exe] + c, stdout=subprocess.PIPE, stderr=subprocess.DEVNULL, text=True, env=vlib.GOENV)
-             for c in chunks]
+    outdir = os.path.join(vlib.BUILD, "c10", "out")
+    os.makedirs(outdir, exist_ok=True)
+    procs = []
+    for n, c in enumerate(chunks):
+        of = os.path.join(outdir, "taint.%d.%d.txt" % (os.getpid(), run_taint.counter))
+        run_taint.counter += 1
+        procs.append((subprocess.Popen([exe, "-o", of] + c, stdout=subprocess.DEVNULL, stderr=subprocess.DEVNULL, env=vlib.GOENV), of))
     res = {}
-    for p in procs:
+    deadline = time.time() + timeout
+    for p, of in procs:
         try:
-            out, _ = p.communicate(timeout=timeout)
+            p.wait(timeout=max(1, deadline - time.time()))
+            extra = ""
         except subprocess.TimeoutExpired:
             p.kill()
-            out, _ = p.communicate()
-            out += "\nP timeout\nFAIL timeout\n"
-        res.update(parse_flows(out))
+            p.wait()
+            extra = "\nP timeout\nFAIL timeout\n"
+        try:
+            out = open(of).read()
+        except OSError:
+            out = ""
+        res.update(parse_flows(out + extra))
     return res
+
+
+run_taint.counter = 0
 
 
 def observed_of(prog, flows):
@@ -636,8 +651,7 @@ def run(chk):
     chk.assumptions += ["parameters/results of the generated functions are pointers to a struct with a string field (pointer-like "
                         "targets, data copies in bodies: no aliasing between parameters and results, which the pointer analysis "
                         "would report independently of any contract)",
-                        "each generated function has exactly one return statement and <= 2 results (3+ results hit the known "
-                        "C08/C01 return-index defect)",
+                        "each generated function has exactly one return statement and <= 2 results (the range the property names)",
                         "the diagonal Args[i] contains i is unobservable (same SSA value) and set at random"]
     return chk.finish()
 
